@@ -308,6 +308,48 @@ pub fn parse_check<T: StrApi>(run: &mut Run) {
     let bits = T::BITS;
     let nb = T::bytes();
 
+    if T::N > 100 {
+        // the widest configurations (8192 bits): for every radix the numerals of the range ends and their
+        // neighbours, of the longest numerals (r^(cap-1) - 1, r^(cap-1), r^cap - 1, r^cap), of 2^BITS and of a
+        // dense value; canonical, "+0" + upper case, and with '-'; the empty string and a lone sign
+        let ti = T::ti();
+        let (max, min) = (ti.max::<Z>(), ti.min::<Z>());
+        let dense = BigRef::from_le_bytes_unsigned(&sets::huge(T::DIGIT_BITS, T::N)[7]).shr_floor(2);
+        let cfg = config.clone();
+        let states = std::sync::atomic::AtomicU64::new(0);
+        let rad: Vec<u32> = (2..=36).collect();
+        let total = par_chunks(threads, rad.len(), |lo, hi, l| for &r in &rad[lo..hi] {
+            let cap = capacity(ti, r) as u64;
+            let rz = big(r as i128);
+            let mut vs: Vec<BigRef> = vec![big(0), big(1), max.clone(), max.sub(&big(1)), max.add(&big(1)), min.clone(), min.sub(&big(1)), min.add(&big(1)), BigRef::pow2(bits as u64), dense.clone()];
+            for k in [cap - 1, cap] {
+                let p = rz.pow(k);
+                vs.push(p.sub(&big(1)));
+                vs.push(p);
+            }
+            let mut strings: Vec<Vec<u8>> = vec![Vec::new(), b"+".to_vec(), b"-".to_vec()];
+            for v in &vs {
+                let body = v.abs().to_str_radix(r);
+                if v.is_neg() {
+                    strings.push(format!("-{}", body).into_bytes());
+                    strings.push(format!("-00{}", body.to_uppercase()).into_bytes());
+                } else {
+                    strings.push(body.clone().into_bytes());
+                    strings.push(format!("+0{}", body.to_uppercase()).into_bytes());
+                    strings.push(format!("-{}", body).into_bytes());
+                }
+            }
+            let strings = sets::dedup(strings);
+            states.fetch_add(strings.len() as u64, std::sync::atomic::Ordering::Relaxed);
+            for s in &strings {
+                parse_transitions::<T>(&cfg, s, r, l);
+            }
+        });
+        run.merge(&config, "HUGE: numerals of the range ends, longest numerals, 2^BITS, a dense value x every radix 2..=36", "parse (value-directed)", states.into_inner(), total);
+        let _ = (tier, nb);
+        return;
+    }
+
     // ---- (a) all short strings over the per-radix character alphabet --------------------
     let len_full = if bits <= 16 { 4 } else { 3 };
     let states = std::sync::atomic::AtomicU64::new(0);
